@@ -347,6 +347,22 @@ def stream_getters_hist(rng, tier):
         rng.shuffle(gs)
         low = [0x90] + [rng.randrange(256) for _ in range(24)]
         out.append(case('gh%d' % i, rng.choice(['i2c', 'spi']), ops + gs, 'low=' + hexs(low)))
+    # a getter returns what the register holds NOW: the registers change between calls (`@rHH=VV`),
+    # with resets, self tests and other getters in between (nothing a previous call saw may be served again)
+    regs_of = {'id': [0], 'cmderr': [2], 'status': [3], 'unscaled': [4, 5, 6, 7, 8, 9], 'data': [4, 5, 6, 7, 8, 9],
+               'clock': [0x0A, 0x0B, 0x0C], 'resetstat': [0x0D], 'is0': [0x0E], 'is1': [0x0F], 'is2': [0x10],
+               'rawtemp': [0x11], 'celsius': [0x11], 'fifolen': [0x12, 0x13], 'steps': [0x15, 0x16, 0x17], 'activity': [0x18]}
+    for i in range(QS * 150 if tier == 'quick' else 3000):
+        ops = []
+        for _ in range(rng.randint(4, 12)):
+            g = rng.choice([x for x in GETTERS if x in regs_of and x != 'id'] + ['data', 'unscaled'])
+            r = rng.random()
+            if r < 0.15:
+                ops.append(rng.choice(['reset', 'selftest', 'flush', 'rfifo:3', rand_request(rng)]))
+            toks = ''.join(' @r%02x=%02x' % (a, rng.choice([0x00, 0x01, 0x03, 0xFF, 0x80, rng.randrange(256)])) for a in regs_of[g]) \
+                if rng.random() < 0.7 else ''
+            ops.append(g + toks)
+        out.append(case('gp%d' % i, rng.choice(['i2c', 'spi']), ops, 'low=' + hexs([0x90] + [rng.randrange(256) for _ in range(24)])))
     return out
 
 
@@ -555,7 +571,12 @@ def fifo_case(cid, rng, specs, tail, ctor='i2c', pre=None):
     hdr = 'q fifo=%s fspec=%s ftail=%s' % (hexs(buf) if buf else '', '/'.join(spec_tok(s) for s in specs) if specs else '-', tt)
     if not buf:
         hdr = 'q fspec=- ftail=none'
-    return case(cid, ctor, (pre or []) + ['rfifo:%d' % len(buf)], hdr)
+    pre = list(pre or [])
+    if rng.random() < 0.35:
+        # what other calls learned about the device must not limit what a FIFO read parses
+        pre += rng.sample(['fifolen', 'status', 'data', 'is0', 'flush', 'steps', 'fifolen'], rng.randint(1, 2))
+        hdr += ' low=%s' % rand_low(rng)
+    return case(cid, ctor, pre + ['rfifo:%d' % len(buf)], hdr)
 
 
 def stream_fifo_wf(rng, tier):
@@ -725,6 +746,41 @@ def stream_odr_matrix(rng, tier):
     return out
 
 
+def stream_odr_orders(rng, tier):
+    """C06: the SAME device state reached along different orders of (ODR, data source, enable), then a
+    request that must be accepted / rejected from it - a decision taken from something remembered
+    along the way instead of from the recorded registers shows only on some orders"""
+    out = []
+    n = 0
+    finals = ['acc odr:%d' % o for o in (2, 3, 4, 5)] + ['int gen1:1', 'int gen2:1', 'int actch:1', 'int stap:1', 'int dtap:1',
+                                                        'gen1 src:0', 'gen2 src:0', 'act src:0', 'gen1 src:1', 'act src:1']
+    for who, en in (('gen1', 'gen1'), ('gen2', 'gen2'), ('act', 'actch')):
+        for odr0 in (3, 4, 1):
+            for src_first in (0, 1):
+                steps = [
+                    # enable on filter 2, move to filter 1 afterwards (or try to), then the final request
+                    ['acc odr:%d' % odr0, '%s src:1' % who, 'int %s:1' % en, '%s src:%d' % (who, src_first)],
+                    # source first, then ODR, then enable
+                    ['%s src:%d' % (who, src_first), 'acc odr:%d' % odr0, 'int %s:1' % en],
+                    # enable, disable, change, enable again
+                    ['acc odr:%d' % odr0, '%s src:1' % who, 'int %s:1' % en, 'int %s:0' % en, '%s src:%d' % (who, src_first), 'int %s:1' % en],
+                    # through a reset / self test in between
+                    ['acc odr:%d' % odr0, '%s src:1' % who, 'int %s:1' % en, rng.choice(['selftest', 'reset']),
+                     '%s src:%d' % (who, src_first), 'int %s:1' % en],
+                ]
+                for st in steps:
+                    for f in (finals if tier != 'quick' else rng.sample(finals, 5)):
+                        out.append(case('oo%d' % n, 'i2c', st + [f, f]))
+                        n += 1
+    for odr0 in (4, 3):
+        for st in (['acc odr:%d' % odr0, 'int stap:1', 'tap sens:2'], ['int stap:1', 'acc odr:%d' % odr0, 'int stap:1'],
+                   ['acc odr:4', 'int dtap:1', 'int dtap:0', 'acc odr:%d' % odr0, 'int dtap:1']):
+            for f in finals:
+                out.append(case('oo%d' % n, 'i2c', st + [f]))
+                n += 1
+    return out
+
+
 def stream_selftest(rng, tier):
     out = []
     n = 0
@@ -759,6 +815,29 @@ def stream_selftest(rng, tier):
         if rng.random() < 0.3:
             ops += ['selftest !%d' % rng.randrange(13), 'selftest']
         out.append(case('t%d' % n, 'i2c', ops,
+                        'pos=%s neg=%s low=%s' % (hexs(sample6(rng, True)), hexs(sample6(rng, False)), rand_low(rng))))
+        n += 1
+    # several self tests on ONE driver while the sensor answers differently each time (`@pos=` / `@neg=`:
+    # what the device does by itself): every verdict depends on that run's responses only
+    good = ([0xFF, 0x07, 0xFF, 0x07, 0xFF, 0x07], [0x00, 0x08, 0x00, 0x08, 0x00, 0x08])      # +2047 / -2048 per axis
+    for i in range(QS * 60 if tier == 'quick' else 2000):
+        ops = reach_state(rng, rich=False) if rng.random() < 0.5 else []
+        for _ in range(rng.randint(2, 4)):
+            r = rng.random()
+            if r < 0.4:
+                p_, n_ = good
+            elif r < 0.7:
+                p_, n_ = sample6(rng, True), sample6(rng, False)
+            else:
+                # one axis below its threshold
+                p_, n_ = list(good[0]), list(good[1])
+                ax = rng.randrange(3)
+                p_[2 * ax], p_[2 * ax + 1] = 0, 0
+                n_[2 * ax], n_[2 * ax + 1] = 0, 0
+            ops.append('selftest @pos=%s @neg=%s' % (hexs(p_), hexs(n_)))
+            if rng.random() < 0.3:
+                ops.append(rng.choice(['data', 'reset', rand_request(rng), 'unscaled']))
+        out.append(case('t%d' % n, rng.choice(['i2c', 'i2c', 'spi']), ops,
                         'pos=%s neg=%s low=%s' % (hexs(sample6(rng, True)), hexs(sample6(rng, False)), rand_low(rng))))
         n += 1
     for i in range(QS * 150 if tier == 'quick' else 5000):
@@ -868,6 +947,10 @@ def stream_universe(rng, tier, ctors=('i2c', 'i2c', 'i2c', 'spi', 'spi3'), pin_f
                 op = 'reset'
             else:
                 op = 'acc scale:%d odr:%d' % (rng.randrange(4), rng.choice([3, 4, 3, 4, 0, 6]))
+            if rng.random() < 0.25:
+                # the device's status / data / counter registers change by themselves between calls
+                op += ''.join(' @r%02x=%02x' % (a, rng.choice([0x00, 0x01, 0xFF, rng.randrange(256)]))
+                              for a in rng.sample(range(0x02, 0x19), rng.randint(1, 3)))
             f = rng.random()
             if ctor == 'i2c':
                 if f < 0.14:
@@ -982,6 +1065,20 @@ def stream_twin(rng, tier):
                                               hexs([rng.randrange(256) for _ in range(20)]))
         out.append(case('x%da' % i, 'i2c', ops, hdr))
         out.append(case('x%db' % i, 'spi', ops, hdr))
+    # the same program over I2C and 3-wire SPI (the IF_CONF write of the constructor apart)
+    for i in range(QS * 60 if tier == 'quick' else 1500):
+        ops = reach_state(rng, rich=False) + [rand_op(rng) for _ in range(rng.randint(1, 10))]
+        if rng.random() < 0.6:
+            ops.insert(rng.randrange(len(ops) + 1), 'reset')
+        hdr = 'low=%s pos=%s neg=%s fifo=%s' % (rand_low(rng), hexs(sample6(rng, True)), hexs(sample6(rng, False)),
+                                              hexs([rng.randrange(256) for _ in range(20)]))
+        out.append(case('t%da' % i, 'i2c', ops, hdr))
+        out.append(case('t%db' % i, 'spi3', ops, hdr))
+    # constructors: whatever the throw-away read returns, the chip id is read once more
+    for j, (idv, dummy) in enumerate([(0x90, 0x90), (0x90, 0x00), (0x42, 0x90), (0x90, 0x42), (0x00, 0x90)]):
+        for k, ctor in enumerate(('spi', 'spi3')):
+            out.append(case('c%d_%da' % (j, k), 'i2c', ['id'], 'low=%02x dummy=%02x' % (idv, dummy)))
+            out.append(case('c%d_%db' % (j, k), ctor, ['id'], 'low=%02x dummy=%02x' % (idv, dummy)))
     # the chip-id read of the constructor failing on both transports (raw operation 0 on I2C; the data
     # operations of the SECOND access on SPI: the first one is the SPI-only dummy read)
     for j, (ks, idv) in enumerate([(k, i) for k in (5, 6) for i in (0x90, 0x42)]):
@@ -1126,6 +1223,9 @@ def stream_faults_from(base_cases, base_obs, rng, tier, recover=True, data_only=
                     # (over SPI only raw position 1 is a data operation of the first access in every case)
                     ops.append(last + ' !%d' % (1 if (data_only and ' spi' in secs[0]) else rng.choice([0, 1, 1, 2, 2])))
                 ops.append(last)
+                prev_int = [o for o in secs[1:-1] if o.startswith('int ')]
+                if prev_int:
+                    ops.append(prev_int[-1])        # the very request that was accepted earlier, again
                 ops.append('int drdy:1 fwm:1 ffull:1 orient:1 step:1 latch:1')
                 ops.append('data')
                 if b in SETTERS:
